@@ -69,11 +69,90 @@ class C15(SweepProp):
         res['probes']['c15.table_checked'] = 1
         vio = check_tables(r, mon, ctab, dtab)
         res['violations'].extend(v.to_json() for v in vio)
+        if any('pin' in a._peak for a in r.assemblies):
+            res['probes']['c15.pin_table_checked'] = 1
+            if any('pin' not in a._peak for a in r.assemblies):
+                res['probes']['c15.pin_table_mixed_core'] = 1
+            for comp, reg in (('clad', 'od'), ('clad', 'mw'), ('clad', 'id'),
+                              ('fuel', 'od'), ('fuel', 'cl')):
+                try:
+                    ptab = dassh.table.PeakPinTempTable(comp, reg).generate(
+                        r, None)
+                except Exception as ex:
+                    res['violations'].append(sim.Violation(
+                        'peak.table_crash', f'pin table {comp} {reg}',
+                        f'{type(ex).__name__}: {ex}', {'table'}).to_json())
+                    break
+                vio = check_pin_table(r, f'{comp}_{reg}', ptab)
+                res['violations'].extend(v.to_json() for v in vio)
+                if vio:
+                    break
 
 
 _CROW = re.compile(r'^\s*(\d+)\s+(\S+)\s+(\S+)\s+(\S+)\s+(\S+)\s+(\S+)\s+'
                    r'(\S+)\s+(\S+)\s+(\S+)\s*$')
 _DROW = re.compile(r'^\s*(\d+)\s+\(\s*\d+,\s*\d+\)\s+(\d+)\s+(.*)$')
+
+
+_PROW = re.compile(r'^\s*(\d+)\s+(\S+)\s+(\d+)\s+(-?\d+\.?\d*)\s+'
+                   r'(-?\d+\.?\d*(?:[eE][-+]?\d+)?)\s+(.*)$')
+
+
+def check_pin_table(r, key, ptab):
+    """Rows of a PeakPinTempTable against the peak records of the assembly
+    in that row (1-based position in Reactor.assemblies): name, pin, height
+    and the radial profile; one row per assembly that has a pin model, none
+    for the others.  (That the records themselves are the maxima of the
+    fields is decided by the peak.pin oracles.)"""
+    vio = []
+    tol = 0.051           # one printed decimal
+    seen = set()
+    for ln in ptab.splitlines():
+        m = _PROW.match(ln)
+        if not m:
+            continue
+        i = int(m.group(1)) - 1
+        name, pin, ht = m.group(2), int(m.group(3)), float(m.group(4))
+        temps = []
+        for tok in m.group(6).replace('|', ' ').split():
+            try:
+                temps.append(float(tok))
+            except ValueError:
+                break
+        if not (0 <= i < len(r.assemblies)):
+            vio.append(sim.Violation(
+                'peak.table_pin', f'row {i + 1} {key}',
+                f'row for assembly {i + 1} of {len(r.assemblies)}',
+                {'table', 'pin', 'row'}))
+            continue
+        a = r.assemblies[i]
+        seen.add(i)
+        if 'pin' not in a._peak:
+            vio.append(sim.Violation(
+                'peak.table_pin', f'asm{a.id} {key}',
+                f'row {i + 1} ("{name}") for an assembly without a pin '
+                f'model ("{a.name}")', {'table', 'pin', 'row'}))
+            continue
+        rec = a._peak['pin'][key][2]
+        want = [float(x) for x in rec[3:]]
+        ok = (name == a.name[:len(name)] and pin == int(rec[2])
+              and abs(ht - float(rec[1])) <= tol
+              and len(temps) >= len(want)
+              and all(abs(t - w) <= tol for t, w in zip(temps, want)))
+        if not ok:
+            vio.append(sim.Violation(
+                'peak.table_pin', f'asm{a.id} {key}',
+                f'row {i + 1} prints "{name}" pin {pin} z={ht} '
+                f'T={temps[:len(want)]} but that assembly ("{a.name}") '
+                f'recorded pin {int(rec[2])} z={float(rec[1])!r} '
+                f'T={[round(w, 2) for w in want]}', {'table', 'pin'}))
+    for i, a in enumerate(r.assemblies):
+        if 'pin' in a._peak and i not in seen:
+            vio.append(sim.Violation(
+                'peak.table_pin', f'asm{a.id} {key}',
+                f'no row for assembly {i + 1} ("{a.name}"), which has a '
+                f'pin model', {'table', 'pin', 'row'}))
+    return vio[:1]
 
 
 def check_tables(r, mon, ctab, dtab):
